@@ -30,9 +30,11 @@ EXTRA = {
     "C14": FIXT + " under the layout group; " + GLUE + ".",
     "C15": "statements with quoted / schema-qualified type names and comments inside a data type.",
     "C16": GLUE + ".",
-    "C17": FIXT + "; " + GLUE + ".",
+    "C17": FIXT + "; " + GLUE + "; layout option product: max_line_length {6, 10, 20, 45} x implicit_indents {forbid, allow, require} x (G(1) + operator list, "
+    "each also with long identifiers everywhere and with long identifiers only after FROM) x {layout, all}.",
     "C19": "nested-configuration scenarios (file in sub/ or sub/deep/ with its own .sqlfluff: rule option, exclude_rules, templater context) and templated files, "
-    "stdin given --stdin-filename sub/f.sql.",
+    "stdin given --stdin-filename sub/f.sql; every inline directive also in every accepted spelling ('-- sqlfluff:' / '--sqlfluff:') x placement (first / last "
+    "line) x line ending (LF / CRLF).",
     "C20": "16 directive kinds incl. lists mixing an expanding reference with a special code (noqa: LT01,PRS / PRS,CP01 / disable=LT01,PRS); block-comment syntax "
     "for all single-directive placements.",
     "C21": "selectors with character-class globs (CP0[12], capitalisation.[k]eywords, LT0[!1]).",
@@ -41,6 +43,8 @@ EXTRA = {
     "C25": "a sibling directory 'ab' whose name starts with 'a'; BOTH directory listing orders (os.walk wrapped: sub-directories ascending and descending).",
     "C26": "interrupt-at-i: KeyboardInterrupt and SystemExit raised at every operation index (a failed write that is not an OSError).",
     "C28": SPAN + "; " + LOOP + ".",
-    "C30": SPAN + " (patch sets of real fixes).",
+    "C30": SPAN + " (patch sets of real fixes); insertions come with two different texts (X, Y) so one variant can carry two edits of one zero-length range; "
+    "depth-changing loops (48 templates whose loop body opens / closes a bracket or CASE, fixed under LT02 alone and under all rules).",
+    "C34": "the same limits set by a NESTED .sqlfluff (big.sql in m/, the root config says the opposite).",
     "C33": SPAN + ".",
 }
